@@ -15,6 +15,7 @@ import (
 	"sort"
 	"strings"
 	"sync"
+	"time"
 )
 
 // TB is the common subset of *testing.T and *rapid.T that the checks need.
@@ -298,4 +299,28 @@ func Guard(f func()) (panicked interface{}) {
 	}()
 	f()
 	return nil
+}
+
+// Watched runs f (one case of a sequential check) in a goroutine of its own.  If f has not
+// returned after limit - orders of magnitude above what such a case takes - the case is
+// written as the replay file, the counters are flushed and the process ends with status 1:
+// a call that never returns cannot be stopped or shrunk, and "the call returns" is part of
+// every property checked this way.
+func Watched(property, sub string, c interface{}, limit time.Duration, f func()) {
+	done := make(chan struct{})
+	go func() {
+		defer close(done)
+		f()
+	}()
+	tm := time.NewTimer(limit)
+	defer tm.Stop()
+	select {
+	case <-done:
+	case <-tm.C:
+		note := fmt.Sprintf("the case did not finish within %v: a call never returned (deadlock or endless loop)", limit)
+		WriteReplay(property, sub, c, note)
+		Flush()
+		fmt.Printf("--- FAIL: [%s/%s] %s\n", property, sub, note)
+		os.Exit(1)
+	}
 }
